@@ -182,10 +182,6 @@ func check(c *core.Ctx, sel string, ss styleSpec) {
 		// An empty (or whitespace-only) selector gives "{...}": a qualified rule with an empty
 		// prelude; still exactly one rule.
 	}
-	for len(selToks) > 0 && selToks[0].Kind == csssyn.CDC {
-		// leading --> tokens are skipped by the top-level rule list; tolerated (see DESIGN C16)
-		selToks = trim(selToks[1:])
-	}
 	if len(rules) != 1 {
 		c.Violation(k, "CSSRule(%+q, ...)=%+q parses to %d rules, want 1", sel, out, len(rules))
 		return
